@@ -469,3 +469,55 @@ Lemma kind_counting_is_not_enough :
   block_uniform ["a"; "b"] (blk, false) = false /\
   run_block (fun _ => 0) (fun _ => 0) blk "a" <> run_block (fun _ => 0) (fun _ => 0) blk "b".
 Proof. split; [reflexivity|]. vm_compute. discriminate. Qed.
+
+(* ------------------------------------------------------------------------------------------ *)
+(** * 8. Span requests at the shared batches *)
+
+Section SPAN_REQUESTS.
+  Variables (h : handler_prog) (sf af cs ca : list string).
+  Hypothesis Hok : handler_ok h sf af cs ca = true.
+
+  Lemma consumed_in_fields : forallb (fun f => existsb (String.eqb f) sf) cs = true /\ forallb (fun f => existsb (String.eqb f) af) ca = true.
+  Proof. unfold handler_ok in Hok. apply andb_true_iff in Hok as [H1 H2]. apply andb_true_iff in H1 as [_ H1]. split; assumption. Qed.
+
+  Lemma inv_span_requests_ok : forall who b, batch_inv sf af b ->
+    sreq_ok (List.length cs) (span_request who cs (b_spans b)) = true /\ sreq_ok (List.length ca) (span_request who ca (b_attrs b)) = true.
+  Proof.
+    destruct consumed_in_fields as [Hs Ha]. rewrite forallb_forall in Hs, Ha.
+    intros who b [n [k [Hbs Hba]]]. unfold sreq_ok, span_request. cbn [sr_cols]. rewrite Hbs, Hba.
+    rewrite (map_const_repeat _ (field_len (const_cols sf n)) cs n), (map_const_repeat _ (field_len (const_cols af k)) ca k).
+    - rewrite !all_equal_repeat_N, !repeat_length, !Nat.eqb_refl. split; reflexivity.
+    - intros f Hin. apply field_len_const. exact (Ha f Hin).
+    - intros f Hin. apply field_len_const. exact (Hs f Hin).
+  Qed.
+
+  Lemma span_requests_ok : forall evs who,
+    Forall (fun b => sreq_ok (List.length cs) (span_request who cs (b_spans b)) = true /\ sreq_ok (List.length ca) (span_request who ca (b_attrs b)) = true)
+           (sent_batches h sf af (batch0 sf af) evs).
+  Proof.
+    intros evs who. eapply Forall_impl; [|exact (sent_batches_inv h sf af cs ca Hok evs (batch0 sf af) (batch0_inv sf af))].
+    intros b Hb. apply inv_span_requests_ok. exact Hb.
+  Qed.
+End SPAN_REQUESTS.
+
+(* ------------------------------------------------------------------------------------------ *)
+(** * 9. The multipart form of /ingest *)
+
+Lemma mform_inflated_bounded : forall limit f, (0 <= limit)%Z -> (mform_inflated limit f <= decompressor_limit + 1 + limit)%Z.
+Proof.
+  intros limit f Hl. unfold mform_inflated, decompressor_limit. destruct (mf_boundary_ok f && mf_closed f); [|lia].
+  destruct (mform_file f) as [p|]; [|lia]. destruct (mp_content p); lia.
+Qed.
+Lemma mform_accepted_has_profile : forall limit f, mform_accepts limit f = true ->
+  exists p, In p (mf_parts f) /\ mp_name p = mform_field /\ mp_file p = true /\
+            (mp_content p = McProfile \/ (mp_content p = McNested /\ (mp_inflated2 p <= limit)%Z)) /\
+            (0 < mp_inflated p <= decompressor_limit)%Z.
+Proof.
+  intros limit f H. unfold mform_accepts in H. apply andb_true_iff in H as [_ H]. unfold mform_file in H.
+  destruct (find _ (mf_parts f)) as [p|] eqn:E; [|discriminate]. apply find_some in E as [Hin Hp].
+  apply andb_true_iff in Hp as [Hn Hf]. apply String.eqb_eq in Hn. exists p. destruct (mp_content p); try discriminate.
+  - apply andb_true_iff in H as [H1 H2]. apply Z.ltb_lt in H1. apply Z.leb_le in H2.
+    split; [exact Hin|]. split; [exact Hn|]. split; [exact Hf|]. split; [left; reflexivity|lia].
+  - apply andb_true_iff in H as [H H3]. apply andb_true_iff in H as [H1 H2]. apply Z.ltb_lt in H1. apply Z.leb_le in H2, H3.
+    split; [exact Hin|]. split; [exact Hn|]. split; [exact Hf|]. split; [right; split; [reflexivity|exact H3]|lia].
+Qed.
